@@ -22,12 +22,20 @@ func init() {
 		{Pkg: ts, Func: "isValidStoreType"},
 		{Pkg: ts, Func: "ValidateCertificates"},
 		{Pkg: ts, Func: "isRootCACertificate"},
-		// GetCertificates itself is outside the subset; the rows below keep the reason in the log
-		// (docs/audit/C13.md, section GoLite): variadic calls (truststore.go:74 SysPath and
-		// dir.X509TrustStoreDir, :98 filepath.Join), the bit test mode&fs.ModeSymlink (:87),
-		// append(certificates, certs...) (:117).
+		// GetCertificates: the OS and the parser are oracles
 		{Pkg: ".../dir", Type: "SysFS", Opaque: true},
+		{Pkg: ".../dir", Func: "SysFS.SysPath", Oracle: true},
+		{Pkg: ".../dir", Func: "X509TrustStoreDir", Oracle: true},
+		{Pkg: "io/fs", Type: "FileInfo", Opaque: true, Views: map[string]string{"Mode()": "Z"}},
+		{Pkg: "io/fs", Type: "DirEntry", Opaque: true, Views: map[string]string{"Name()": "string", "Type()": "Z"}},
+		{Pkg: "io/fs", Func: "FileMode.IsDir"},
+		{Pkg: "io/fs", Func: "FileMode.IsRegular"},
+		{Pkg: "io/fs", Func: "FileMode.Type"},
+		{Pkg: "os", Func: "Lstat", Oracle: true},
+		{Pkg: "os", Func: "IsNotExist", Oracle: true},
+		{Pkg: "os", Func: "ReadDir", Oracle: true},
 		{Pkg: "path/filepath", Func: "Join", Oracle: true},
+		{Pkg: "github.com/notaryproject/notation-core-go/x509", Func: "ReadCertificateFile", Oracle: true},
 		{Pkg: ts, Func: "(*x509TrustStore).GetCertificates"},
 	})
 }
